@@ -654,6 +654,8 @@ def rule_c03(an, res):
             if k in ('OBS', 'CLEAR', 'UNKNOWN'):
                 continue
             for top in method_segments(an, cm, roles, m, res):
+                from rules_misc import check_splice_dest
+                check_splice_dest(res, prop, cm, roles, m, top)
                 for seg in top.all_segments():
                     ok_f, _ = lift.feasible(seg)
                     if not ok_f:
